@@ -244,11 +244,31 @@ def chain_language(kinds, sib=False, reverse=False):
 def assoc_class(lcf, a):
     """name of the generated class for declared association `a`: the class named after the association (or
     <name>_...) that has both role names as properties; falls back to the factory's signature lookup"""
+    cands = []
     for cname in sorted(n for n in dir(lcf.ns) if n == a["name"] or n.startswith(a["name"] + "_")):
         info = getattr(getattr(lcf.ns, cname), "__propinfo__", None)
         if info and a["leftField"] in info and a["rightField"] in info:
-            return cname
+            cands.append(cname)
+    if len(cands) > 1:
+        # several same-named associations with the same two role names (between different asset pairs): the class whose
+        # two properties hold the declared asset types (read off the factory's JSON schema)
+        for cname in cands:
+            if _schema_ends(lcf, a["name"], cname) == {a["leftField"]: a["leftAsset"], a["rightField"]: a["rightAsset"]}:
+                return cname
+    if cands:
+        return cands[0]
     return lcf.get_association_by_signature(a["name"], a["leftAsset"], a["rightAsset"])
+
+
+def _schema_ends(lcf, name, cname):
+    """{role name: asset type name} of the generated association class `cname` according to lcf.json_schema"""
+    try:
+        ent = lcf.json_schema["definitions"]["LanguageAssociation"]["definitions"][name]
+        if cname != name:
+            ent = ent["definitions"][cname]
+        return {f: v["items"]["$ref"].rsplit("/", 1)[1] for f, v in ent["properties"].items()}
+    except (KeyError, AttributeError, TypeError):
+        return None
 
 
 def build_model(lcf, spec, recipe, name="m"):
@@ -553,6 +573,8 @@ def c15_spec(recipe):
     structure: every root declares step t, every type X declares step o<X> (no reaches clauses).
     full: in addition every type declares one step s<i> per expression of expr_pool (reaching step o<type of the
           expression> on it) and, when it has a role, a variable v = its first role used by step sv.
+          with "targets": "owned" also one step per (expression, other step owned by the type of the expression:
+          inherited t / o<ancestor>).
     ill:  structure plus ONE dangling reference described by recipe["ill"]:
           {"kind": "super", "type": X, "to": name}            X extends an undeclared asset
           {"kind": "assoc", "k": i, "left": name|null, "right": name|null}   association ends replaced
@@ -578,6 +600,16 @@ def c15_spec(recipe):
                 e, ty = pool[0]
                 a["variables"].append({"name": "v" + a["name"], "stepExpression": e})
                 a["attackSteps"].append(attack_step("sv" + a["name"], "or", reaches=[collect(var("v" + a["name"]), step("o" + ty))]))
+            if recipe.get("targets") == "owned":
+                # in addition one step per (expression, step that the type of the expression OWNS, i.e. declares itself
+                # or inherits: t of its root, o<ancestor>); the variable likewise
+                for i, (e, ty) in enumerate(pool):
+                    for j, tn in enumerate(n for n in sorted(steps_ref(base, ty)) if n != "o" + ty):
+                        a["attackSteps"].append(attack_step("s%s%d_%d" % (a["name"], i, j), "or", reaches=[collect(e, step(tn))]))
+                if pool:
+                    for j, tn in enumerate(n for n in sorted(steps_ref(base, pool[0][1])) if n != "o" + pool[0][1]):
+                        a["attackSteps"].append(attack_step("sv%s_%d" % (a["name"], j), "or",
+                                                            reaches=[collect(var("v" + a["name"]), step(tn))]))
     elif mode == "ill":
         ill = recipe["ill"]
         if ill["kind"] == "super":
@@ -599,3 +631,40 @@ def c15_spec(recipe):
         else:
             raise ValueError(ill["kind"])
     return spec
+
+
+# ---------------------------------------------------------------------------------------------------
+# C15: role names shared between associations
+
+def fields_multi(spec, tname):
+    """{role name: [(declared type at that end, association index), ...]} navigable from type tname: like fields_of but
+    keeping every association that offers the role"""
+    out = {}
+    for k, a in enumerate(spec["associations"]):
+        if is_sub(spec, tname, a["rightAsset"]):
+            out.setdefault(a["leftField"], []).append((a["leftAsset"], k))
+        if is_sub(spec, tname, a["leftAsset"]):
+            out.setdefault(a["rightField"], []).append((a["rightAsset"], k))
+    return out
+
+
+def roles_unambiguous(spec):
+    """MAL well-formedness of role names: no type has (itself or through an ancestor) two fields of the same name.
+    Under this condition fields_of / static_type are well defined even when associations share role names."""
+    return all(len(v) == 1 for a in spec["assets"] for v in fields_multi(spec, a["name"]).values())
+
+
+ROLE_PATTERNS = [("l0", "r0"), ("r0", "l0"), ("l0", "r1"), ("l1", "r0"), ("r0", "r1"), ("l1", "l0")]
+
+
+def assoc_sets_shared_roles(names):
+    """two associations, every ORDERED pair of ends (left, right), (left2, right2) over names (declaration order counts),
+    the first with roles l0 / r0, the second re-using at least one of these role names (ROLE_PATTERNS: both in the same
+    or in swapped position, one of them on its left or right end), once with distinct and once with equal association
+    names.  Includes ill-formed combinations (a type with two fields of one name): filter with roles_unambiguous."""
+    pairs = [(l, r) for l in names for r in names]
+    for (l, r) in pairs:
+        for (l2, r2) in pairs:
+            for (lf, rf) in ROLE_PATTERNS:
+                yield [["L0", l, "l0", r, "r0"], ["L1", l2, lf, r2, rf]]
+                yield [["L", l, "l0", r, "r0"], ["L", l2, lf, r2, rf]]
